@@ -171,21 +171,39 @@ func TestC18ConcurrentAddsExceedRF(t *testing.T) {
 	c.SetReplicaMode("tcp://B:9502", types.RW)
 	// C and D are added concurrently: both pass the checks, both sit in Create
 	res := map[string]chan error{}
+	gates := map[string]chan struct{}{}
 	for _, a := range []string{"tcp://C:9502", "tcp://D:9502"} {
-		w.Gate[a] = make(chan struct{})
+		gates[a] = make(chan struct{})
+		w.SetGate(a, gates[a]) // Create takes the gate out of the world: keep our own reference
 		ch := make(chan error, 1)
 		res[a] = ch
 		go func(a string) { ch <- c.AddReplica(a) }(a)
 		<-w.Entered
 	}
-	close(w.Gate["tcp://C:9502"])
+	close(gates["tcp://C:9502"])
 	if err := <-res["tcp://C:9502"]; err != nil {
 		t.Fatal(err)
 	}
 	c.SetReplicaMode("tcp://C:9502", types.RW) // C's rebuild completes
-	close(w.Gate["tcp://D:9502"])
+	close(gates["tcp://D:9502"])
 	err := <-res["tcp://D:9502"]
 	if n := len(c.ListReplicas()); n > 3 {
 		t.Fatalf("%d data replicas with replication factor 3 (second AddReplica returned %v): %v", n, err, c.ListReplicas())
+	}
+}
+
+// Defect (o): Start attaches every address it is given without looking at the replication factor:
+// a start request listing four replicas leaves four RW data replicas with RF 3.
+func TestC18StartExceedsRF(t *testing.T) {
+	c, _ := newCtl(t, "3")
+	reg(c, "A", 5, "closed")
+	reg(c, "B", 5, "closed")
+	err := c.Start("tcp://A:9502", "tcp://B:9502", "tcp://C:9502", "tcp://D:9502")
+	n := len(c.ListReplicas())
+	if n > 3 {
+		t.Fatalf("Start returned %v and left %d data replicas with RF 3: %v", err, n, c.ListReplicas())
+	}
+	if err == nil {
+		t.Fatalf("Start with more addresses than the replication factor must be refused")
 	}
 }
